@@ -220,6 +220,12 @@ def supervised() -> int:
     os.environ["VERIF_HEARTBEAT"] = hb.name
     child = os.fork()
     if child == 0:
+        try:        # die with the supervising parent (an outer timeout that kills the parent must not leave this child spinning)
+            import ctypes
+            import signal as _sig
+            ctypes.CDLL("libc.so.6", use_errno=True).prctl(1, int(_sig.SIGKILL), 0, 0, 0)   # PR_SET_PDEATHSIG
+        except Exception:  # noqa
+            pass
         faulthandler.dump_traceback_later(max(1, budget - 5), file=dump, exit=False)
         rc = 2
         try:
